@@ -145,16 +145,24 @@ Definition fva_ok (tol eps : Q) (s : solution) (fva : option fva_frame) (rows : 
         end) rows
   end.
 
-Definition covered (rs : list rxn) (s : solution) (fva : option fva_frame) : bool :=
-  forallb (fun r => match lookup (x_id r) s with Some _ => true | None => false end) rs &&
-  match fva with None => true
-  | Some f => forallb (fun r => match lookup (x_id r) f with Some _ => true | None => false end) rs end.
+Definition has_key {A} (k : Z) (l : list (Z * A)) : bool := match lookup k l with Some _ => true | None => false end.
+
+(* every reaction has a flux in the solution; every reaction the summary lists has a row in the fva frame *)
+Definition covered (rs : list rxn) (s : solution) (fva : option fva_frame) (listed : list Z) : bool :=
+  forallb (fun r => has_key (x_id r) s) rs &&
+  match fva with None => true | Some f => forallb (fun k => has_key k f) listed end.
 
 Definition flag (b : bool) (code : nat) : list (nat * nat) := if b then [] else [(0%nat, code)].
 
 Definition check_case (c : case) : list (nat * nat) :=
   let tol := c_tol c in let eps := c_eps c in let rs := c_rxns c in let s := c_sol c in let fva := c_fva c in
-  flag (covered rs s fva) 1 ++ flag (c_render c) 7 ++
+  flag (c_render c) 7 ++
+  flag (covered rs s fva
+          match c_obs c with
+          | ObsModel _ _ _ _ => map x_id (filter is_boundary rs)
+          | ObsMet m _ _ _ => map x_id (filter (has_met m) rs)
+          | ObsRxn r _ _ => [r]
+          end) 1 ++
   match c_obs c with
   | ObsModel frame up sec objv =>
       let xs := model_xrows tol rs s fva in
